@@ -225,4 +225,128 @@ Proof.
   destruct il; rewrite G; destruct (nth_match l count); reflexivity.
 Qed.
 
+(* ---------------------------------------------------------------------- *)
+(* find in whole-text coordinates (also for in_current_line): the matches are
+   the greedy occurrences k of the needle in the TEXT with
+   lo <= k and k + len sub <= hi, lo = cursor (+1 unless
+   include_current_position), hi = end of the current line / of the text. *)
+
+Lemma startswith_by_app_inv s q : forall p,
+  startswith_by ceq (s ++ q) p = true -> len p <= len s -> startswith_by ceq s p = true.
+Proof.
+  induction s as [|x s IH]; intros [|y p]; cbn [startswith_by app]; intros H Hl; try reflexivity.
+  - change (len (@nil Z)) with 0 in Hl. rewrite len_cons in Hl. pose proof (len_nonneg p). lia.
+  - apply andb_prop in H as [H1 H2]. rewrite H1. cbn [andb]. apply IH; [exact H2|].
+    rewrite !len_cons in Hl. lia.
+Qed.
+
+Lemma occ_prefix sub a q k :
+  occ sub a k <-> occ sub (a ++ q) k /\ k + len sub <= len a.
+Proof.
+  unfold occ, occurs_at. rewrite len_app. pose proof (len_nonneg q) as Hq. split.
+  - intros [[H0 H1] H2]. split; [|exact H2]. split; [split; [exact H0|]|lia].
+    rewrite skipn_app. now apply startswith_by_app.
+  - intros [[[H0 H1] _] H2]. split; [|exact H2]. split; [exact H0|].
+    pose proof (len_nonneg sub) as Hs.
+    rewrite skipn_app in H1.
+    replace (Z.to_nat k - length a)%nat with 0%nat in H1 by (unfold len in H2; lia).
+    cbn [skipn] in H1. apply (startswith_by_app_inv _ q); [exact H1|].
+    rewrite len_skipn. lia.
+Qed.
+
+Definition find_lo (d : doc) (ic : bool) : Z := dcur d + (if ic then 0 else 1).
+Definition find_hi (d : doc) (il : bool) : Z :=
+  if il then dcur d + len (current_line_after_cursor d) else len (dtext d).
+
+Lemma scanned_occ d sub (il ic : bool) k :
+  valid d -> 0 <= k ->
+  (ic = false -> 1 <= len (if il then current_line_after_cursor d else text_after_cursor d)) ->
+  (occ sub (find_scanned d il ic) k <->
+   occ sub (dtext d) (find_lo d ic + k) /\ find_lo d ic + k + len sub <= find_hi d il).
+Proof.
+  intros Hv Hk Hne. unfold find_scanned, find_lo, find_hi. cbv zeta.
+  pose proof (len_ta d Hv) as Hta. pose proof (len_cla_le d Hv) as Hcla.
+  destruct (cla_split d) as [q [Hq _]]. pose proof Hv as [Hc0 Hc1].
+  assert (Hskip : forall j, 0 <= j -> (occ sub (text_after_cursor d) j <-> occ sub (dtext d) (dcur d + j))).
+  { intros j Hj. rewrite (ta_skipn d Hv). apply occ_skipn; lia. }
+  destruct il, ic.
+  - rewrite Z.add_0_r. rewrite occ_prefix with (q := q). rewrite <- Hq. rewrite Hskip by lia.
+    split; intros [H1 H2]; (split; [exact H1|lia]).
+  - specialize (Hne eq_refl). rewrite slice_from_1.
+    change 1%nat with (Z.to_nat 1). rewrite occ_skipn by lia.
+    rewrite occ_prefix with (q := q). rewrite <- Hq. rewrite Hskip by lia.
+    replace (dcur d + (1 + k)) with (dcur d + 1 + k) by lia.
+    split; intros [H1 H2]; (split; [exact H1|lia]).
+  - rewrite Z.add_0_r. rewrite Hskip by lia. split; [|tauto].
+    intros H. split; [exact H|]. destruct H as [_ H]. lia.
+  - specialize (Hne eq_refl). rewrite slice_from_1.
+    change 1%nat with (Z.to_nat 1). rewrite occ_skipn by lia. rewrite Hskip by lia.
+    replace (dcur d + (1 + k)) with (dcur d + 1 + k) by lia. split; [|tauto].
+    intros H. split; [exact H|]. destruct H as [_ H]. lia.
+Qed.
+
+Lemma greedy_shift (P Q : Z -> Prop) step b : 0 <= step -> forall from l,
+  greedy P step from l ->
+  (forall k, from <= k -> (P k <-> Q (b + k))) ->
+  greedy Q step (b + from) (map (Z.add b) l).
+Proof.
+  intros Hs from l H. induction H as [from Hn|from m l Hm Hp Hlt Hg IH]; intros Hpq; cbn [map].
+  - apply g_nil. intros k Hk HQ. apply (Hn (k - b)); [lia|]. apply Hpq; [lia|].
+    now replace (b + (k - b)) with k by lia.
+  - apply g_cons; [lia|now apply Hpq| |].
+    + intros k Hk HQ. apply (Hlt (k - b)); [lia|]. apply Hpq; [lia|].
+      now replace (b + (k - b)) with k by lia.
+    + replace (b + m + step) with (b + (m + step)) by lia. apply IH.
+      intros k Hk. apply Hpq. lia.
+Qed.
+
+Lemma nth_match_map {T U} (f : T -> U) (l : list T) count :
+  nth_match (map f l) count = option_map f (nth_match l count).
+Proof.
+  unfold nth_match. destruct (count <? 1); [reflexivity|]. apply nth_error_map.
+Qed.
+
+Definition find_text (d : doc) (il : bool) : str :=
+  if il then current_line_after_cursor d else text_after_cursor d.
+
+Lemma find_exact_ft d sub il ic count :
+  dfind ceq d sub il ic count =
+  if negb ic && (len (find_text d il) =? 0) then None
+  else option_map (fun p => if ic then p else p + 1)
+         (nth_match (find_iter ceq sub (find_scanned d il ic)) count).
+Proof.
+  rewrite (find_exact d sub il ic count _ (find_iter_greedy sub (find_scanned d il ic))).
+  destruct il; reflexivity.
+Qed.
+
+Theorem find_exact_text d sub (il ic : bool) count l :
+  valid d ->
+  greedy (fun k => occ sub (dtext d) k /\ k + len sub <= find_hi d il) (fstep sub) (find_lo d ic) l ->
+  dfind ceq d sub il ic count = option_map (fun k => k - dcur d) (nth_match l count).
+Proof.
+  intros Hv G.
+  assert (Hhi : find_hi d il = dcur d + len (find_text d il)).
+  { unfold find_hi, find_text. destruct il; [reflexivity|]. rewrite (len_ta d Hv). lia. }
+  pose proof (len_nonneg (find_text d il)) as Htn. pose proof (len_nonneg sub) as Hsn.
+  rewrite find_exact_ft.
+  destruct (negb ic && (len (find_text d il) =? 0)) eqn:Ec.
+  - (* nothing is scanned: no occurrence fits, the list is empty *)
+    assert (Hl : l = []).
+    { destruct ic; [discriminate|]. cbn [negb andb] in Ec. apply Z.eqb_eq in Ec.
+      inversion G as [|f m l' Hm [_ Hfit] _ _]; subst; [reflexivity|].
+      unfold find_lo in Hm. lia. }
+    subst l. unfold nth_match. destruct (count <? 1); [reflexivity|].
+    destruct (Z.to_nat (count - 1)); reflexivity.
+  - assert (Hne : ic = false -> 1 <= len (find_text d il)).
+    { intros ->. cbn [negb andb] in Ec. destruct (len (find_text d il) =? 0) eqn:E; [discriminate|lia]. }
+    pose proof (find_iter_greedy sub (find_scanned d il ic)) as G0.
+    apply (greedy_shift _ (fun k => occ sub (dtext d) k /\ k + len sub <= find_hi d il)
+             (fstep sub) (find_lo d ic) ltac:(unfold fstep; lia)) in G0.
+    2:{ intros k Hk. apply scanned_occ; [exact Hv|exact Hk|exact Hne]. }
+    rewrite Z.add_0_r in G0.
+    rewrite <- (greedy_unique _ _ _ _ G0 _ G). rewrite nth_match_map.
+    destruct (nth_match (find_iter ceq sub (find_scanned d il ic)) count) as [p|]; [|reflexivity].
+    cbn [option_map]. f_equal. unfold find_lo. destruct ic; lia.
+Qed.
+
 End Exact.
